@@ -197,7 +197,7 @@ def _explore(comp, task):
     stmts = []
     for k in KINDS3:
         _walk_statements(fns[k].body, stmts)
-    deadline = time.time() + task.get("time_budget", 600)
+    deadline = time.process_time() + task.get("time_budget", 600)
     solver = setup.shared_solver(task.get("solver_timeout_ms", 60000))
     out = {}
 
